@@ -142,7 +142,21 @@ func onceGuards(c *an.Ctx, rule string) {
 						c.Und(rule, key+":command", fn.Pos(), "no command is run in the up loop")
 						continue
 					}
-					ex := &an.Explorer{P: p, NoReturn: noReturn}
+					// (a setter method of the context that stores its argument is inlined)
+					ex := &an.Explorer{P: p, NoReturn: noReturn, MaxDepth: 2, Inline: func(g *ssa.Function) bool {
+						if an.Outer(g).Pkg != fn.Pkg || g == fn {
+							return false
+						}
+						stores := false
+						an.EachInstr(g, func(in2 ssa.Instruction) {
+							if sto, ok := in2.(*ssa.Store); ok {
+								if fa, ok := sto.Addr.(*ssa.FieldAddr); ok && an.TypeField(fa) == "ExecutionContext.startupError" {
+									stores = true
+								}
+							}
+						})
+						return stores
+					}}
 					l.Bound(ex)
 					ex.Atom = func(v ssa.Value) (an.AVal, bool) {
 						if v == ssa.Value(svc) {
@@ -152,7 +166,7 @@ func onceGuards(c *an.Ctx, rule string) {
 					}
 					ex.Effect = func(in ssa.Instruction, st *an.State) string {
 						if sto, ok := in.(*ssa.Store); ok {
-							if fa, ok := sto.Addr.(*ssa.FieldAddr); ok && an.TypeField(fa) == "ExecutionContext.startupError" && an.SameValue(sto.Val, svc) {
+							if fa, ok := sto.Addr.(*ssa.FieldAddr); ok && an.TypeField(fa) == "ExecutionContext.startupError" && (an.SameValue(sto.Val, svc) || st.SameRoot(sto.Val, svc)) {
 								return "startupError:=err"
 							}
 						}
@@ -187,7 +201,7 @@ func onceGuards(c *an.Ctx, rule string) {
 		}
 		good := do != nil
 		for _, ret := range an.Returns(up) {
-			if an.FieldProv(an.RetVal(ret, 0)) != "ExecutionContext.startupError" || do == nil || !an.Dominates(do, ret) {
+			if (an.FieldProv(an.RetVal(ret, 0)) != "ExecutionContext.startupError" && p.DeepFieldProv(an.RetVal(ret, 0)) != "ExecutionContext.startupError") || do == nil || !an.Dominates(do, ret) {
 				good = false
 			}
 		}
@@ -298,6 +312,83 @@ func downRules(c *an.Ctx, r *runnerRoles, rule string) {
 				}
 			}
 			good = len(downs) > 0 && allTrue && onAll
+			if !good && allTrue && len(downs) == 0 {
+				// second idiom: the callback only collects every entry into a list (no command runs inside Range),
+				// and Finish then calls Down on every element of that list
+				var cell *ssa.Alloc
+				collects, _ := an.OnAllPathsToExit(cb.Blocks[0].Instrs[0], func(in ssa.Instruction) bool {
+					st, ok := in.(*ssa.Store)
+					if !ok {
+						return false
+					}
+					call, ok := st.Val.(*ssa.Call)
+					if !ok {
+						return false
+					}
+					if b, ok := call.Call.Value.(*ssa.Builtin); !ok || b.Name() != "append" {
+						return false
+					}
+					fv, ok := st.Addr.(*ssa.FreeVar)
+					if !ok {
+						return false
+					}
+					// the appended element is the entry's value
+					fromValue := false
+					for _, e := range an.VariadicElems(call.Call.Args[1]) {
+						for _, src := range an.Sources(e) {
+							if ta, ok := src.(*ssa.TypeAssert); ok {
+								src = ta.X
+							}
+							if src == ssa.Value(cb.Params[len(cb.Params)-1]) {
+								fromValue = true
+							}
+						}
+					}
+					if !fromValue {
+						return false
+					}
+					if mc, ok := src.(*ssa.MakeClosure); ok {
+						for i, b := range mc.Bindings {
+							if i < len(cb.FreeVars) && cb.FreeVars[i] == fv {
+								cell, _ = b.(*ssa.Alloc)
+							}
+						}
+					}
+					return true
+				}, an.IsPanicExit)
+				if collects && cell != nil {
+					for _, l := range an.Loops(fin) {
+						op := l.RangeOperand()
+						u, ok := op.(*ssa.UnOp)
+						if op == nil || !ok || u.X != ssa.Value(cell) || !an.Dominates(ci.(ssa.Instruction), l.Header.Instrs[0]) {
+							continue
+						}
+						_, elems := l.RangeKeyValue()
+						ex := &an.Explorer{P: c.P, NoReturn: noReturn}
+						l.Bound(ex)
+						ex.Effect = func(in ssa.Instruction, st *an.State) string {
+							if cc, ok := an.IsCallTo(in, fnCtxDown); ok {
+								for _, e := range elems {
+									if an.SameValue(cc.Args[0], e) {
+										return "down"
+									}
+								}
+							}
+							return ""
+						}
+						outs := ex.Run(fin, l.BodyEntry(), l.Header, nil)
+						every := len(outs) > 0
+						for _, o := range outs {
+							if !(o.End == "stop" && o.StopBlock == l.Header && count(o.Effects, "down") == 1) {
+								every = false
+							}
+						}
+						if every {
+							good = true
+						}
+					}
+				}
+			}
 		}
 	}
 	c.Check(good, rule, an.Short(fin)+":down-all", fin.Pos(), "Finish runs Down on every registered context (the Range callback always continues)", "Finish does not run Down on every registered context")
